@@ -14,7 +14,7 @@
 (* Checked: DeepFaithful, DeepDisjoint, ShallowFresh, ShallowValuesShared, *)
 (* and OriginalUnaffected (action property over the edit step).            *)
 (***************************************************************************)
-EXTENDS FdlGen, FdlBuild, Json
+EXTENDS FdlGen, FdlBuild, FdlEdit, Json
 
 CONSTANT EmitOn
 
@@ -45,41 +45,6 @@ DeepCopyHeap(h, root) ==
 
 ShallowCopyHeap(h, root, newKind) ==
   Append(h, Obj(newKind, h[root].fn, h[root].items))
-
-\* setting argument `slot` of object o to leaf v keeps its tags
-SetArg(h, o, slot, v) ==
-  LET its == h[o].items
-      has == \E j \in 1..Len(its) : its[j].key = slot
-      upd == [j \in 1..Len(its) |->
-                IF its[j].key = slot THEN ItemT(slot, v, its[j].tg) ELSE its[j]]
-      before == SelectSeq(its, LAMBDA it : it.key < slot)
-      after == SelectSeq(its, LAMBDA it : it.key > slot)
-  IN [h EXCEPT ![o].items = IF has THEN upd ELSE before \o <<ItemT(slot, v, 0)>> \o after]
-
-\* deleting an argument keeps its tags (a tagged argument without value remains)
-DelArg(h, o, slot) ==
-  LET its == h[o].items IN
-  [h EXCEPT ![o].items =
-     SelectSeq([j \in 1..Len(its) |->
-                  IF its[j].key = slot THEN ItemT(slot, 0, its[j].tg) ELSE its[j]],
-               LAMBDA it : ~(it.val = 0 /\ it.tg = 0))]
-
-SetTags(h, o, slot, t) ==
-  LET its == h[o].items
-      has == \E j \in 1..Len(its) : its[j].key = slot
-      before == SelectSeq(its, LAMBDA it : it.key < slot)
-      after == SelectSeq(its, LAMBDA it : it.key > slot)
-      upd == [j \in 1..Len(its) |->
-                IF its[j].key = slot THEN ItemT(slot, its[j].val, t) ELSE its[j]]
-      raw == IF has THEN upd ELSE before \o <<ItemT(slot, 0, t)>> \o after
-  IN [h EXCEPT ![o].items = SelectSeq(raw, LAMBDA it : ~(it.val = 0 /\ it.tg = 0))]
-
-TagOf(h, o, slot) ==
-  LET js == {j \in 1..Len(h[o].items) : h[o].items[j].key = slot} IN
-  IF js = {} THEN 0 ELSE h[o].items[CHOOSE j \in js : TRUE].tg
-
-AppendList(h, o, v) ==
-  [h EXCEPT ![o].items = Append(h[o].items, ItemT(Len(h[o].items), v, 0))]
 
 OtherKind(k) == IF k = "config" THEN "partial" ELSE "config"
 
